@@ -29,6 +29,7 @@ EVIDENCE = os.path.join(VERIF, 'evidence')
 REPLAYS = os.path.join(EVIDENCE, 'replays')
 KNOWN = os.path.join(VERIF, 'KNOWN_FINDINGS.jsonl')
 NCPU = min(16, os.cpu_count() or 4)
+CASE_JOBS = int(os.environ.get('VERIF_CASE_JOBS', '8'))   # concurrent coqc processes evaluating case shards (each may need ~0.7 GB)
 
 COQ_FLAGS = ['-Q', 'SF', 'SF', '-Q', 'Gen', 'Gen', '-Q', 'Proofs', 'Proofs',
              '-Q', 'Properties', 'Properties', '-Q', 'Refuted', 'Refuted',
@@ -285,7 +286,7 @@ def eval_cases(prop_id, imports, cases, shard_size=400):
             return path, rc, out
 
         fail_m, fail_s = set(), set()
-        with ThreadPoolExecutor(max_workers=NCPU) as ex:
+        with ThreadPoolExecutor(max_workers=CASE_JOBS) as ex:
             for path, rc, out in ex.map(run, shards):
                 if rc != 0:
                     keep = os.path.join(EVIDENCE, 'logs')
@@ -443,7 +444,7 @@ def run_check(prop, tier, seed):
         if not model_ok:
             for c in cs:
                 c.m = None
-        fm, fs = eval_cases(pid, prop.IMPORTS if model_ok else getattr(prop, 'IMPORTS_SPEC_ONLY', prop.IMPORTS), cs)
+        fm, fs = eval_cases(pid, prop.IMPORTS if model_ok else getattr(prop, 'IMPORTS_SPEC_ONLY', prop.IMPORTS), cs, shard_size=int(getattr(prop, 'SHARD_SIZE', 400)))
         return cs, fm, fs
 
     try:
@@ -502,7 +503,7 @@ def run_check(prop, tier, seed):
                 c.cid = i
                 c.m = None
                 c.origin = (search_ctx.seed, search_ctx.scale)
-            _, sfs = eval_cases(pid, getattr(prop, 'IMPORTS_SPEC_ONLY', prop.IMPORTS), scs)
+            _, sfs = eval_cases(pid, getattr(prop, 'IMPORTS_SPEC_ONLY', prop.IMPORTS), scs, shard_size=int(getattr(prop, 'SHARD_SIZE', 400)))
             for c in scs:
                 if c.cid in sfs or c.py_fail:
                     if not any(finding_matches(e, c) for e in known):
